@@ -9,6 +9,7 @@ import datetime
 import logging
 
 from dashlive.utils.date_time import from_isodatetime, to_iso_datetime
+from dashlive.utils.timezone import UTC
 from .dash_option import DashOption
 from .http_error import FailureCount, ManifestHttpError
 from .types import OptionUsage
@@ -58,6 +59,10 @@ def ast_to_string(value: datetime.datetime | str | None) -> str:
         return value
     if value is None:
         return ''
+    if value.tzinfo is not None:
+        # the value is placed in URLs without escaping, where the "+" of
+        # a UTC offset would be read back as a space
+        value = value.astimezone(UTC())
     return to_iso_datetime(value)
 
 
